@@ -20,6 +20,9 @@ func (o *Ob) Guarded(target ssa.Instruction, key, what string, lits ...LitM) boo
 
 // Forced: assuming all of assume, every path of fn from entry to a return passes an instruction satisfying effect.
 // Each assumed literal must occur in fn (otherwise the obligation would hold vacuously or be meaningless).
+// Branches on anything else are unconstrained: a new guard in front of the tested conditions that lets a path
+// skip the effect is a violation.  Obligations that only start at some point of the function (after a call whose
+// result is assumed) use ForcedAfter; per-iteration obligations use loopBackWithout.
 func (o *Ob) Forced(fn *ssa.Function, key, what string, effect func(ssa.Instruction) bool, assume ...LitM) bool {
 	for _, a := range assume {
 		if o.E.CountLitEdges(fn, a)+o.E.CountLitEdges(fn, a.Neg()) == 0 {
@@ -30,19 +33,6 @@ func (o *Ob) Forced(fn *ssa.Function, key, what string, effect func(ssa.Instruct
 	w := &Walk{Fn: fn, Cut: o.E.CutContradicting(assume...), Barrier: effect}
 	r := w.FromEntry()
 	rets := r.Returns()
-	if len(rets) > 0 && len(assume) > 0 {
-		// second chance: every continuation after a branch asserting the first assumption passes the effect
-		var bad []*ssa.Return
-		n := 0
-		for _, ec := range o.E.EdgesAsserting(fn, assume[0]) {
-			n++
-			rr := w.FromEdgeCtx(ec)
-			bad = append(bad, rr.Returns()...)
-		}
-		if n > 0 {
-			rets = bad
-		}
-	}
 	if len(rets) > 0 {
 		var ds []string
 		for _, l := range assume {
